@@ -123,6 +123,8 @@ def run(eng: Engine, ck: Check):
     ck.ob('R-C05-BOUND', ip, ip.node, 'is_processing() covers INITIALIZING, UPLOADING and DOWNLOADING',
           mem == {'INITIALIZING', 'UPLOADING', 'DOWNLOADING'}, f'{sorted(mem)}', construct='is_processing states')
 
+    from . import defs
+    defs.transfer_direction_predicates(eng, ck, 'R-C05-BOUND')
     # ---- R-C05-PERUSER
     gq = eng.func(TM, 'TransferManager._get_queued_transfers')
     ck.visited(gq)
@@ -138,8 +140,9 @@ def run(eng: Engine, ck: Check):
         offline = has(lambda e, pol: 'OFFLINE' in enum_members_in(e) and mentions_attr(e, 'status') and not pol)
         queued = has(lambda e, pol: enum_members_in(e) == {'QUEUED'} and mentions_attr(e, 'state') and pol)
         is_up = has(lambda e, pol: (('UPLOAD' in enum_members_in(e) and mentions_attr(e, 'direction')) or call_name(e) == 'is_upload') and pol)
-        in_sets = [(e, pol) for e, pol, _ in raw if (cmp_atom(e) or ('',))[0] == 'in' and not pol and mentions_attr(cmp_atom(e)[1], 'username')]
+        in_sets = [(e, pol) for e, pol, _ in raw if (cmp_atom(e) or ('',))[0] == 'in' and not pol and mentions_attr(expand_aliases(gq, cmp_atom(e)[1]), 'username')]
         set_names = {unparse(cmp_atom(e)[2]) for e, pol in in_sets}
+        main_loop = next((x for x in ancestors(a) if isinstance(x, (ast.For, ast.AsyncFor))), None)
         # which of those sets is "users with a processing upload", which is the per-cycle set
         processing_set = None
         cycle_set = None
@@ -151,15 +154,27 @@ def run(eng: Engine, ck: Check):
                     mentions_attr(d, 'username'):
                 processing_set = nm        # get_uploading() is checked separately ("occupied slots definition")
             adds = [x for x in calls_in(gq.node) if call_name(x) == 'add' and unparse(x.func.value) == nm]
+            outside = [x for x in adds if main_loop is None or main_loop not in list(ancestors(x))]
+            if adds and len(outside) == len(adds):
+                # the same set built by a loop of its own: every upload of the transfer list that is_processing() contributes its user
+                def builds(x):
+                    lp = next((y for y in ancestors(x) if isinstance(y, (ast.For, ast.AsyncFor))), None)
+                    if lp is None or not mentions_attr(expand_aliases(gq, lp.iter), '_transfers'):
+                        return False
+                    g_ = expanded_guards(eng, gq, x)
+                    pos = [unparse(e_) for e_, pol_, _ in g_ if pol_]
+                    neg = [e_ for e_, pol_, _ in g_ if not pol_]
+                    return len(pos) == len(g_) == 2 and any('is_upload()' in t_ for t_ in pos) and any('is_processing()' in t_ for t_ in pos) and not neg and \
+                        bool(x.args) and mentions_attr(expand_aliases(gq, x.args[0]), 'username')
+                if all(builds(x) for x in adds) and main_loop is not None and all(x.lineno < main_loop.lineno for x in adds):
+                    processing_set = nm
+                continue
             if adds:
                 cycle_set = nm
-                c = eng.cfg(gq)
-                an = c.nodes_for(a)
-                adn = [n for x in adds for n in c.nodes_for(x)]
                 # the add is on every path to (or directly after) the append within the same iteration
                 same_block = any(parent(enclosing_stmt(x)) is parent(enclosing_stmt(a)) or
                                  enclosing_stmt(x) in getattr(parent(enclosing_stmt(a)), 'body', []) for x in adds)
-                add_arg_ok = all(x.args and mentions_attr(x.args[0], 'username') for x in adds)
+                add_arg_ok = all(x.args and mentions_attr(expand_aliases(gq, x.args[0]), 'username') for x in adds)
                 if not (same_block and add_arg_ok):
                     cycle_set = None
         ck.ob('R-C05-PERUSER', gq, a, 'an upload is eligible only if its user is not OFFLINE', offline, 'missing status guard',
@@ -204,6 +219,18 @@ def run(eng: Engine, ck: Check):
                       f'`{unparse(n)}` under {[unparse(e) for e, _, _ in gs]}', construct=alpha_key(n))
             else:
                 weights[kind] = weights.get(kind, 0) + cval(eng.repo, pu_, n.value)
+        elif isinstance(n, (ast.Assign, ast.AugAssign)) and isinstance(n.value, ast.Call) and call_name(n.value) == 'get' and isinstance(n.value.func, ast.Attribute) and \
+                (not isinstance(n, ast.AugAssign) or isinstance(n.op, ast.Add)):
+            # the same weights as a lookup table: `rank = _STATUS_RANK.get(user.status, 0)`
+            tbl = resolve_named_constant(n.value.func.value)
+            if isinstance(tbl, ast.Dict) and len(n.value.args) == 2 and mentions_attr(expand_aliases(pu_, n.value.args[0]), 'status'):
+                keys = set().union(*[enum_members_in(k_) for k_ in tbl.keys if k_ is not None]) if tbl.keys else set()
+                vals = {const(v_) for v_ in tbl.values}
+                if keys == {'ONLINE', 'AWAY'} and len(vals) == 1 and isinstance(next(iter(vals)), int) and const(n.value.args[1]) == 0 and len(tbl.keys) == 2:
+                    weights['online'] = weights.get('online', 0) + next(iter(vals))
+                else:
+                    ck.ob('R-C05-RANK', pu_, n, 'every weight is added under one of the three documented tests', False,
+                          f'`{unparse(n)}` with table keys {sorted(keys)} values {sorted(map(str, vals))}', construct=alpha_key(n))
     ck.floor('R-C05-RANK.weights', len(weights), 3)
     w = weights
     ok = len(w) == 3 and w['privileged'] > w['friend'] + w['online'] and w['friend'] > w['online'] > 0
